@@ -163,8 +163,17 @@ func validateStreams(env *Environment, errorSink *validation.ErrorSink) *Environ
 		switch node.(type) {
 		case TypeDefinition:
 			self.VisitChildren(node, node)
+		case *ProtocolStep:
+			self.VisitChildren(node, node)
 		case *Stream:
-			if _, isProtocol := (context).(*ProtocolDefinition); !isProtocol {
+			// only the type of a protocol step itself may be a stream, not something nested inside it
+			isStepType := false
+			if step, isStep := (context).(*ProtocolStep); isStep {
+				if gt, ok := step.Type.(*GeneralizedType); ok && gt.Dimensionality == node {
+					isStepType = true
+				}
+			}
+			if !isStepType {
 				errorSink.Add(validationError(node, "!streams can only be declared as top-level protocol sequence elements"))
 			}
 
